@@ -2,7 +2,10 @@
      pser <id> <cap_bytes> <fill> tokens...   -> like `ser`, answered by target_ser TgPy (struct.pack('<e') rounds half to even)
      tief <id> tokens...                      -> ok 1 | ok 0   no float16 field of the value holds an exact tie (no_f16_tie)
      nanc <id> <hex|->                        -> ok 1 | ok 0 | err <class>   every decoded float16 NaN is canonical
-   `ser` is target_ser TgC = target_ser TgCpp (definitionally the specification). *)
+     oser <c|cpp|py> <little> <setzeros> <asserts> <id> <cap_bytes> <fill> tokens...   -> like `ser`, answered by the CODE-SHAPED
+                                              observable ObsC03.obs_ser (walker over the shipped primitive models; flags are 0|1)
+     odes <c|cpp|py> <little> <setzeros> <asserts> <id> <prior> <hex|->                -> like `des`, answered by ObsC03.obs_des
+   `ser` is spec_ser TgC = spec_ser TgCpp (the specification), `pser` spec_ser TgPy. *)
 open Model
 
 exception Bad of string
@@ -194,6 +197,41 @@ let handle (line : string) : string =
       (match py_ser t v (nat_of_int cap) with
        | Err e -> "err " ^ err_name e
        | Ok bits -> let (h, n) = hex_of_bits bits in Printf.sprintf "ok %d %s" n h)
+    | "oser" | "odes" ->
+      let tg = (match toks.(1) with "c" -> TgC | "cpp" -> TgCpp | "py" -> TgPy | _ -> raise (Bad "invalid_arg")) in
+      let flag i = (match toks.(i) with "1" -> true | "0" -> false | _ -> raise (Bad "invalid_arg")) in
+      let o = mk_options (flag 2) (flag 3) (flag 4) in
+      let t = find_type toks.(5) in
+      if toks.(0) = "oser" then begin
+        let cap = int_of_string toks.(6) in
+        let fill = toks.(7) in
+        let pos = ref 8 in
+        let v = parse_val t toks pos in
+        if !pos <> Array.length toks then raise (Bad "invalid_arg");
+        let byte i =
+          if fill = "z" then 0 else if fill = "f" then 255
+          else begin
+            let seed = Int64.of_string (String.sub fill 1 (String.length fill - 1)) in
+            let x = Int64.add (Int64.mul 1103515245L (Int64.add seed (Int64.of_int i))) 12345L in
+            Int64.to_int (Int64.logand (Int64.shift_right_logical x 16) 255L)
+          end in
+        let out = ref [] in
+        for i = cap - 1 downto 0 do
+          let b = byte i in
+          for k = 7 downto 0 do out := ((b lsr k) land 1 = 1) :: !out done
+        done;
+        (match obs_ser tg o t v !out (nat_of_int cap) with
+         | Err e -> "err " ^ err_name e
+         | Ok bits -> let (h, n) = hex_of_bits bits in Printf.sprintf "ok %d %s" n h)
+      end else begin
+        let bits = bits_of_hex toks.(7) in
+        (match obs_des tg o t bits with
+         | Err e -> "err " ^ err_name e
+         | Ok (v, consumed) ->
+           let buf = Buffer.create 64 in
+           show_val t v buf;
+           Printf.sprintf "ok %d%s" (int_of_nat consumed) (Buffer.contents buf))
+      end
     | "tief" ->
       let t = find_type toks.(1) in
       let pos = ref 2 in
